@@ -4,11 +4,14 @@ go 1.23.0
 
 toolchain go1.23.5
 
-require github.com/dgraph-io/badger/v4 v4.0.0
+require (
+	github.com/dgraph-io/badger/v4 v4.0.0
+	github.com/dgraph-io/ristretto/v2 v2.2.0
+	google.golang.org/protobuf v1.36.7
+)
 
 require (
 	github.com/cespare/xxhash/v2 v2.3.0 // indirect
-	github.com/dgraph-io/ristretto/v2 v2.2.0 // indirect
 	github.com/dustin/go-humanize v1.0.1 // indirect
 	github.com/go-logr/logr v1.4.3 // indirect
 	github.com/go-logr/stdr v1.2.2 // indirect
@@ -19,7 +22,6 @@ require (
 	go.opentelemetry.io/otel/metric v1.37.0 // indirect
 	go.opentelemetry.io/otel/trace v1.37.0 // indirect
 	golang.org/x/sys v0.35.0 // indirect
-	google.golang.org/protobuf v1.36.7 // indirect
 )
 
 replace github.com/dgraph-io/badger/v4 => /repo
